@@ -56,10 +56,38 @@ const (
 	CtxCanceled
 	CtxDeadline
 	Excluded
+	PanicWrapSkip // panic(v), v is (bare) or wraps (tagged) a control sentinel
+	PanicWrapEof
+	PanicWrapAbort
+	PanicWrapCanceled
+	PanicWrapDeadline
+	RetMarked // returned error wrapping ErrRecoveredPanic and the own sentinel
 	nKinds
 )
 
-var kindNames = []string{"Plain", "Wrapped", "PanicErr", "PanicStr", "PanicOther", "PanicErrSlice", "Skip", "Eof", "Abort", "CtxCanceled", "CtxDeadline", "Excluded"}
+var kindNames = []string{"Plain", "Wrapped", "PanicErr", "PanicStr", "PanicOther", "PanicErrSlice", "Skip", "Eof", "Abort", "CtxCanceled", "CtxDeadline", "Excluded",
+	"PanicWrapSkip", "PanicWrapEof", "PanicWrapAbort", "PanicWrapCanceled", "PanicWrapDeadline", "RetMarked"}
+
+// constructor terms of coq/Model/WorkerConf.v
+var coqKinds = []string{"Plain", "Wrapped", "PanicErr", "PanicStr", "PanicOther", "PanicErrSlice", "Skip", "Eof", "Abort", "CtxCanceled", "CtxDeadline", "Excluded",
+	"(PanicWrap id_skip)", "(PanicWrap id_eof)", "(PanicWrap id_abort)", "(PanicWrap id_canceled)", "(PanicWrap id_deadline)", "RetMarked"}
+
+// the control sentinel a PanicWrap kind carries (reserved id), 0 if none
+func wrapCtl(k int) int {
+	switch k {
+	case PanicWrapSkip:
+		return -2
+	case PanicWrapEof:
+		return -3
+	case PanicWrapAbort:
+		return -6
+	case PanicWrapCanceled:
+		return -4
+	case PanicWrapDeadline:
+		return -5
+	}
+	return 0
+}
 
 const maxID = 1024
 const decoy = 1023
@@ -95,14 +123,14 @@ func errOfID(id int) error {
 
 type weird struct{ Tag string }
 
-func isPanicKind(k int) bool { return k >= PanicErr && k <= PanicErrSlice }
+func isPanicKind(k int) bool { return (k >= PanicErr && k <= PanicErrSlice) || k >= PanicWrapSkip }
 func isErrorKind(k int) bool { return k == Plain || k == Wrapped || k == Abort }
 func taggable(k int) bool {
-	return k == Skip || k == Eof || k == Abort || k == CtxCanceled || k == CtxDeadline
+	return k == Skip || k == Eof || k == Abort || k == CtxCanceled || k == CtxDeadline || wrapCtl(k) != 0
 }
 func carriesID(k int, tagged bool) bool {
 	switch k {
-	case Plain, Wrapped, Excluded, PanicErr, PanicErrSlice:
+	case Plain, Wrapped, Excluded, PanicErr, PanicErrSlice, RetMarked:
 		return true
 	case PanicStr, PanicOther:
 		return false
@@ -118,9 +146,18 @@ func perform(k, id int, tagged bool) error {
 	s := sent[id]
 	tag := func(base error) error {
 		if tagged {
-			return ers.Join(base, s)
+			if id%2 == 0 {
+				return ers.Join(base, s)
+			}
+			return fmt.Errorf("tagged %d: %w / %w", id, base, s)
 		}
 		return base
+	}
+	if ctl := wrapCtl(k); ctl != 0 {
+		if tagged {
+			panic(fmt.Errorf("pw-%d: %w / %w", id, errOfID(ctl), s))
+		}
+		panic(errOfID(ctl))
 	}
 	switch k {
 	case Plain, Excluded:
@@ -145,6 +182,8 @@ func perform(k, id int, tagged bool) error {
 		return tag(context.Canceled)
 	case CtxDeadline:
 		return tag(context.DeadlineExceeded)
+	case RetMarked:
+		return fmt.Errorf("rm-%d: %w / %w", id, fun.ErrRecoveredPanic, s)
 	}
 	return nil
 }
@@ -672,7 +711,8 @@ func oracleE2E(c Case, o e2eObs, sliceAsImpl bool) (sig, detail string) {
 	}
 	processed := func(f Fault) bool { return o.Starts[f.Pos] != 0 }
 	anyReportable, allCont := false, true
-	panicSeen, cancSeen, deadSeen, abortSeen := false, false, false, false
+	panicSeen, cancSeen, deadSeen, abortSeen, skipSeen, eofSeen := false, false, false, false, false, false
+	reportablePanic := false
 	for i, f := range c.Faults {
 		rep, cont, marked := contract(c.Conf, f.Kind, f.Pos, f.Tagged, sliceAsImpl)
 		ek := effectiveKind(c.Conf, f.Kind, f.Pos, f.Tagged)
@@ -699,6 +739,28 @@ func oracleE2E(c Case, o e2eObs, sliceAsImpl bool) (sig, detail string) {
 			if f.Kind == Abort {
 				abortSeen = true
 			}
+			if isPanicKind(ek) {
+				reportablePanic = true
+			}
+			// a recovered panic whose value is or wraps a control sentinel legitimately carries it
+			if ctl := wrapCtl(f.Kind); ctl != 0 {
+				switch ctl {
+				case -2:
+					skipSeen = true
+				case -3:
+					eofSeen = true
+				case -4:
+					cancSeen = true
+				case -5:
+					deadSeen = true
+				case -6:
+					abortSeen = true
+				}
+				flagIdx := map[int]int{-2: 1, -3: 2, -4: 3, -5: 4, -6: 5}[ctl]
+				if !o.Flags[flagIdx] || !o.Flags[0] {
+					return "C03:panic:swallowed", fmt.Sprintf("panic (%s) at item %d: its value / ErrRecoveredPanic is not in the result", kindNames[f.Kind], f.Pos)
+				}
+			}
 			if identifiable(f.Kind, f.Tagged) && !o.Found[i] {
 				if isPanicKind(ek) {
 					return "C03:panic:swallowed", fmt.Sprintf("panic (%s) at item %d is not in the result", kindNames[f.Kind], f.Pos)
@@ -724,10 +786,10 @@ func oracleE2E(c Case, o e2eObs, sliceAsImpl bool) (sig, detail string) {
 	if panicSeen && !o.Flags[0] {
 		return "C03:panic:not-marked", "a panic was processed but errors.Is(result, ErrRecoveredPanic) is false"
 	}
-	if o.Flags[1] {
+	if o.Flags[1] && !skipSeen {
 		return "C03:skip:reported", "errors.Is(result, ErrIteratorSkip)"
 	}
-	if o.Flags[2] {
+	if o.Flags[2] && !eofSeen {
 		return "C03:eof:reported", "errors.Is(result, io.EOF)"
 	}
 	if o.Flags[3] && !cancSeen {
@@ -741,6 +803,9 @@ func oracleE2E(c Case, o e2eObs, sliceAsImpl bool) (sig, detail string) {
 	}
 	// nil exactly when no reportable failure occurred
 	if o.Nil && anyReportable {
+		if reportablePanic {
+			return "C03:panic:swallowed", "result is nil although a panic was processed"
+		}
 		return "C03:error:swallowed", "result is nil although a reportable failure was processed"
 	}
 	if !o.Nil && !anyReportable {
@@ -810,7 +875,7 @@ func oracleE2E(c Case, o e2eObs, sliceAsImpl bool) (sig, detail string) {
 func coqFaults(fs []Fault) string {
 	s := make([]string, len(fs))
 	for i, f := range fs {
-		s[i] = fmt.Sprintf("mkfault %s %s %s %s", kit.ZI(f.Pos), kindNames[f.Kind], kit.ZI(f.Pos), kit.Bool(f.Tagged))
+		s[i] = fmt.Sprintf("mkfault %s %s %s %s", kit.ZI(f.Pos), coqKinds[f.Kind], kit.ZI(f.Pos), kit.Bool(f.Tagged))
 	}
 	return kit.List(s)
 }
@@ -879,7 +944,7 @@ func execCase(run *kit.Run, c Case, verbose bool) {
 		if o.Escaped != "" {
 			o.Profile = profileOf(nil, []int{c.EID})
 		}
-		term := fmt.Sprintf("CTable %s %s %s %s %s %s %s %s", kit.ZI(c.ID), coqConf(c.Conf), kindNames[c.Kind], kit.ZI(c.EID), kit.Bool(c.Tagged),
+		term := fmt.Sprintf("CTable %s %s %s %s %s %s %s %s", kit.ZI(c.ID), coqConf(c.Conf), coqKinds[c.Kind], kit.ZI(c.EID), kit.Bool(c.Tagged),
 			kit.BoolList(o.Profile), kit.Bool(o.Record), kit.Bool(o.Continue))
 		run.Case(c.ID, c, term, fmt.Sprintf("t|%v|%s|%d|%d|%v", c.Conf, c.Via, c.Kind, c.EID, c.Tagged), true)
 	case "e2e":
@@ -986,6 +1051,12 @@ func main() {
 		{Type: "e2e", Construct: "pfe", Workers: 2, N: 5, Conf: Conf{COE: true, COP: true, Excl: []int{2}}, Faults: []Fault{{Pos: 2, Kind: Excluded}}},
 		{Type: "e2e", Construct: "pp", Workers: 1, N: 5, Conf: Conf{Excl: []int{2}}, Faults: []Fault{{Pos: 2, Kind: Excluded}}},
 		{Type: "e2e", Construct: "pp", Workers: 2, N: 0, Conf: Conf{}},
+		// a panic whose VALUE is or wraps a control sentinel is still a panic
+		{Type: "e2e", Construct: "pfe", Workers: 4, N: 200, Conf: Conf{COP: true}, Faults: []Fault{{Pos: 7, Kind: PanicWrapEof}}},
+		{Type: "e2e", Construct: "fmap", Workers: 4, N: 99, Conf: Conf{COE: true, COP: true}, Faults: []Fault{{Pos: 3, Kind: PanicWrapCanceled, Tagged: true}}},
+		{Type: "e2e", Construct: "gen", Workers: 2, N: 40, Conf: Conf{COP: true}, Faults: []Fault{{Pos: 5, Kind: PanicWrapEof}, {Pos: 9, Kind: PanicWrapSkip, Tagged: true}}},
+		{Type: "e2e", Construct: "pp", Workers: 1, N: 6, Conf: Conf{COE: true}, Faults: []Fault{{Pos: 2, Kind: PanicWrapDeadline}}},
+		{Type: "e2e", Construct: "worker", Workers: 2, N: 8, Conf: Conf{COP: true}, Faults: []Fault{{Pos: 1, Kind: RetMarked}, {Pos: 4, Kind: PanicWrapAbort}}},
 		{Type: "e2e", Construct: "map", Workers: 4, N: 12, Conf: Conf{COE: true, COP: true}, Faults: []Fault{{Pos: 0, Kind: PanicStr}, {Pos: 11, Kind: Abort, Tagged: true}}},
 	}
 	for _, c := range corpus {
